@@ -37,4 +37,11 @@ Definition varea2 (pl : list vec) : vec := vsum (map (fun ab => cross (fst ab) (
 (* six times the signed volume of the tetrahedron a b c d *)
 Definition vol6 (a b c d : vec) : F := dot (vsub b a) (cross (vsub c a) (vsub d a)).
 Definition vol6l (pl : list vec) : F := match pl with [a; b; c; d] => vol6 a b c d | _ => f0 end.
+
+(* small integers of the field, and areas / volumes of index lists under a position map *)
+Definition two : F := fadd f1 f1.
+Definition three : F := fadd f1 (fadd f1 f1).
+Definition four : F := fadd f1 (fadd f1 (fadd f1 f1)).
+Definition area_of (pos : Z -> vec) (f : list Z) : vec := varea2 (map pos f).
+Definition vol_of (pos : Z -> vec) (c : list Z) : F := vol6l (map pos c).
 End FieldOps.
